@@ -302,7 +302,6 @@ func r4C05b(c *Ctx) {
 	}
 }
 
-
 // ---------------------------------------------------------------- C18 R18.6
 
 func r4C18(c *Ctx) {
@@ -799,7 +798,7 @@ func r4C19(c *Ctx) {
 	p := c.Prog
 	c.Rule("R19.7", "List calls are restricted to one namespace", 10)
 	exempt := map[string]string{
-		"pkg/util/client.":              "delegating client: forwards the caller's options unchanged",
+		"pkg/util/client.": "delegating client: forwards the caller's options unchanged",
 		"pkg/controller/deployment.MutatingWebhookEventHandler.enqueue": "webhook-configuration event fans out to every advanced Deployment of the cluster, each enqueued under its own namespaced key",
 	}
 	var nsIn func(v ssa.Value, fn *ssa.Function, depth int) bool
@@ -875,8 +874,7 @@ func r4C19(c *Ctx) {
 		c.Unresolved("R19.8", "pkg/util.UpdateFinalizer")
 		return
 	}
-	fns := []*ssa.Function{uf}
-	fns = append(fns, uf.AnonFuncs...)
+	fns := samePkgClosure(p, uf)
 	found := false
 	for _, f := range fns {
 		for _, ci := range AllCalls(f) {
@@ -887,14 +885,17 @@ func r4C19(c *Ctx) {
 			found = true
 			recv := rootOfObject(Forwarded(cc.Value))
 			bad := ""
-			for x := range BackwardSlice(cc.Args[0]) {
-				call, ok := x.(*ssa.Call)
-				if !ok || !call.Call.IsInvoke() || call.Call.Method.Name() != "GetFinalizers" {
-					continue
+			srcs, foreign := finalizerSources(p, cc.Args[0], 0)
+			for _, src := range srcs {
+				if src != recv {
+					bad = "the list handed to SetFinalizers is built from " + TermOf(src).String() + ".GetFinalizers(), not from the object that is written"
 				}
-				if src := rootOfObject(Forwarded(call.Call.Value)); src != recv {
-					bad = "the list handed to SetFinalizers is built from " + TermOf(call.Call.Value).String() + ".GetFinalizers() (" + p.Pos(call.Pos()) + "), not from the object that is written"
-				}
+			}
+			if foreign != "" {
+				bad = "the list handed to SetFinalizers is built from " + foreign + ", not from the object that is written"
+			}
+			if len(srcs) == 0 && foreign == "" {
+				bad = "the list handed to SetFinalizers does not derive from the fetched object's GetFinalizers()"
 			}
 			c.Ob("R19.8", "util.UpdateFinalizer#list-from-fetched-object", ci.Pos(), bad == "", "the new finalizer list derives from the freshly fetched object",
 				ifs(bad != "", bad+": the update carries the fresh resourceVersion, so the conflict check passes while finalizers added or removed by another worker since the caller's read are overwritten"))
@@ -1005,11 +1006,14 @@ func r4C07(c *Ctx) {
 		c.Unresolved("R7.7", "util.EqualIgnoreSpecifyMetadata")
 	} else {
 		var pl, pa *ssa.Parameter
+		// the two []string parameters, in declaration order: label keys first, annotation keys second
 		for _, q := range fn.Params {
-			switch q.Name() {
-			case "ignoreLabels":
+			if q.Type().String() != "[]string" {
+				continue
+			}
+			if pl == nil {
 				pl = q
-			case "ignoreAnno":
+			} else if pa == nil {
 				pa = q
 			}
 		}
@@ -1059,7 +1063,7 @@ func r4C07(c *Ctx) {
 	}
 	var gs *ssa.Parameter
 	for _, q := range fn.Params {
-		if q.Name() == "graceSeconds" {
+		if b, ok := q.Type().Underlying().(*types.Basic); ok && b.Kind() == types.Int32 {
 			gs = q
 		}
 	}
@@ -1263,4 +1267,50 @@ func r4C09(c *Ctx) {
 	if n == 0 {
 		c.Unresolved("R9.6", "functions under doFinalising that read the sub-status")
 	}
+}
+
+// finalizerSources: the objects (roots, in the frame of the function v lives in) whose
+// GetFinalizers() result flows into v, followed through repository helpers that build the list
+// from one of their parameters. foreign describes a source that is not expressible in that frame.
+func finalizerSources(p *Program, v ssa.Value, depth int) (roots []ssa.Value, foreign string) {
+	for x := range BackwardSlice(v) {
+		call, ok := x.(*ssa.Call)
+		if !ok {
+			continue
+		}
+		if call.Call.IsInvoke() {
+			if call.Call.Method.Name() == "GetFinalizers" {
+				roots = append(roots, rootOfObject(Forwarded(call.Call.Value)))
+			}
+			continue
+		}
+		g := call.Call.StaticCallee()
+		if g == nil || g.Blocks == nil || depth >= 2 || g.Pkg == nil || !strings.HasPrefix(g.Pkg.Pkg.Path(), ModPath) {
+			continue
+		}
+		for _, ret := range returnsOf(g) {
+			for _, res := range ret.Results {
+				if !strings.HasPrefix(res.Type().String(), "[]string") {
+					continue
+				}
+				inner, f2 := finalizerSources(p, res, depth+1)
+				if f2 != "" {
+					foreign = f2
+				}
+				for _, r := range inner {
+					mapped := false
+					for i, par := range g.Params {
+						if r == ssa.Value(par) && i < len(call.Call.Args) {
+							roots = append(roots, rootOfObject(Forwarded(call.Call.Args[i])))
+							mapped = true
+						}
+					}
+					if !mapped {
+						foreign = TermOf(r).String() + ".GetFinalizers() inside " + shortName(FuncName(g))
+					}
+				}
+			}
+		}
+	}
+	return roots, foreign
 }
